@@ -50,6 +50,8 @@ func init() {
 			Run: func(P *Program, R *Report) { rangeSizesRule(P, R, "C12.d") }},
 		Rule{ID: "C12.e", Explain: "the proven relation is built from the descriptor: base R<index> raised to -k (sign 1) or k (sign -1) on the left; S^(-v5), R<index>^(-a*sign*m) and each C_i^(d_i) on the right; C_i = R<index>^(d_i) S^(v_i).",
 			Run: func(P *Program, R *Report) { relationShapeRule(P, R) }},
+		Rule{ID: "C12.l", Explain: "the challenge covers every relation of the range proof: in CommitmentsFromSecrets and CommitmentsFromProof the list returned by each sub-relation's contribution call flows into the returned list.",
+			Run: func(P *Program, R *Report) { contributionsKeptRule(P, R, "C12.l") }},
 		Rule{ID: "C12.f", Explain: "ProvesStatement is true only if the sign is 1 or -1 and equals the proof's, the (rescaled) factor equals the proof's A, and K equals the (rescaled) bound or compares to it in the direction of the sign.",
 			Run: func(P *Program, R *Report) { provesStatementRule(P, R) }},
 		Rule{ID: "C12.g", Explain: "the three-square rescaling (factor*4, bound*4-2) is the same symbolic term in NewProofStructure and ProvesStatement, ProvenStatement is its inverse ((K+2)>>2, A>>2), and the queried factor cannot wrap around.",
@@ -765,5 +767,42 @@ func rescalingRule(P *Program, R *Report, rule string) {
 		})
 		R.decide(rule, kProven+":bound", "three squares: the reported bound is (K+2)>>2, the inverse of 4*bound-2", okB, strings.Join(rets, " | "), P.Pos(fn.Pos()))
 		R.decide(rule, kProven+":factor", "three squares: the reported factor is A>>2", okF, "", P.Pos(fn.Pos()))
+	}
+}
+
+// contributionsKeptRule: in the range-proof structure's CommitmentsFromSecrets / CommitmentsFromProof every
+// sub-relation's contribution ends up in the returned list: the list each sub-structure call returns (it appends to the
+// list it is given) flows into the function's result. (A call whose result is dropped leaves the challenge without the
+// commitments that bind the square roots, on both sides alike.)
+func contributionsKeptRule(P *Program, R *Report, rule string) {
+	for _, k := range []string{kRPCFP, kRPCFS} {
+		fn := mustFunc(P, R, rule, k)
+		if fn == nil {
+			continue
+		}
+		var roots []ssa.Value
+		for _, r := range returnsOf(fn) {
+			if len(r.Results) > 0 && !isNilConst(r.Results[0]) {
+				roots = append(roots, r.Results[0])
+			}
+		}
+		inResult := map[ssa.Value]bool{}
+		for _, root := range roots {
+			for v := range deps(P, root) {
+				inResult[v] = true
+			}
+		}
+		n, dropped := 0, []string{}
+		for _, ci := range callsIn(fn) {
+			c, isCall := ci.(*ssa.Call)
+			if !isCall || !strings.HasPrefix(calleeName(c), "zkproof.(*QrRepresentationProofStructure).CommitmentsFrom") {
+				continue
+			}
+			n++
+			if !inResult[c] {
+				dropped = append(dropped, desc(c.Call.Args[0])+" at "+P.Pos(c.Pos()))
+			}
+		}
+		R.decide(rule, k+":contributions-kept", "the contribution of every sub-relation (mCorrect, cRep[i]) is part of the returned list", n >= 2 && len(dropped) == 0, fmt.Sprintf("%d calls; result dropped: %s", n, strings.Join(dropped, ", ")), P.Pos(fn.Pos()))
 	}
 }
